@@ -483,6 +483,33 @@ def _post_order_closure(prog, f, lf, target, verb, walk_fn=None):
         if cn.kind == 'cond' and cn.id in early and g.exit.id in g.reachable([cn], avoid=ctrl + [pnode]):
             if not _null_or_done_test(cn.e, pids):
                 return False, 'the walk can stop at `%s` without walking the base link (a class reached only through such a node is laid out too late)' % SX.show(cn.e)[:60]
+    # the base link is followed for every kind of base — also a generic instantiation (`extends Holder<int>`) and a base that is
+    # itself a template: neither the recursive step nor the computation of the base it steps to may depend on type
+    # arguments / type parameters
+    feed = set()
+    for c in selfcalls:
+        for x in SX.walk(c.e):
+            if x.get('k') == 'ref' and x.get('id'):
+                feed.add(x['id'])
+    watched = list(selfcalls)
+    for _ in range(4):
+        for n_, l_, r_, op_ in g.writes():
+            l0 = SX.strip(l_)
+            if SX.is_node(l0) and l0.get('k') == 'ref' and l0.get('id') in feed and n_ not in watched:
+                watched.append(n_)
+                for x in SX.walk(r_ or {}):
+                    if x.get('k') == 'ref' and x.get('id'):
+                        feed.add(x['id'])
+        for d_ in g.nodes:
+            if d_.kind == 'decl' and d_.e.get('id') in feed and d_ not in watched and SX.is_node(d_.e.get('init')):
+                watched.append(d_)
+                for x in SX.walk(d_.e['init']):
+                    if x.get('k') == 'ref' and x.get('id'):
+                        feed.add(x['id'])
+    for w_ in watched:
+        for ce, pol, _e in g.guards(w_):
+            if any(x.get('k') == 'member' and x.get('name') in ('typeArguments', 'typeParameters', 'typeArgs', 'typeParams') for x in SX.walk(ce)):
+                return False, 'the step to the base depends on `%s`: a base that is a generic instantiation (or a template) is not walked, so the classes behind it are laid out too late' % SX.show(ce)[:60]
     applied = False
     for hf in hosts:
         for lp in SX.walk(hf.body, into_lambdas=False):
